@@ -25,7 +25,9 @@ def subclasses_of(w, tables, tdesc):
 
 
 def gen_fn_scenario(rng: random.Random, static_only=True, simple_sigs=False, bodies=True, kinds=None, nuser=None, is_method=None, type_args=False):
-    w = make_world(rng, nuser=nuser)
+    # (type-valued arguments: one world in three is rich in generic classes deriving from one another, so that aliases
+    # of related origins meet: type[Box[A]] against Crate[int])
+    w = make_world(rng, nuser=nuser, generics=0.45) if type_args and rng.random() < 0.33 else make_world(rng, nuser=nuser)
     if kinds is None:
         kinds = ["cls"] * 6 if static_only else ["cls"] * 6 + ["union", "inter", "exactly", "strict", "hasm", "pred"]
     g = TypeGen(w, rng, kinds=kinds)
@@ -43,6 +45,7 @@ def gen_fn_scenario(rng: random.Random, static_only=True, simple_sigs=False, bod
         pool_types = [["cls", c] for c in anc[: rng.randint(2, 6)]] + pool_types[:1]
     ismeth = (rng.random() < 0.2) if is_method is None else is_method
     type_vals = []
+    plain_pos, plain_pool = None, []
     if type_args:
         # C14: type-valued arguments (classes, parametrised generics, nested) and type[...] annotations
         from world import C_INT, C_LIST, C_OBJECT, C_TUPLE, C_TYPE
@@ -68,7 +71,11 @@ def gen_fn_scenario(rng: random.Random, static_only=True, simple_sigs=False, bod
                 type_vals.append(t)
         anns = [["gen", C_TYPE, [rng.choice(type_vals + [["cls", C_OBJECT]])]] for _ in range(rng.randint(2, 4))]
         anns += [["gen", C_TYPE, [["cls", c]]] for c in rng.sample(user, min(2, len(user)))]
+        plain_pool = [["cls", C_OBJECT], ["cls", C_TYPE], ["cls", C_OBJECT]] + [t for t in pool_types if t[0] == "cls"][:2]
         pool_types = anns + pool_types[: rng.randint(1, 2)]
+        # now and then one position carries plain classes only although classes are passed there: the entry point
+        # keys it by type(x) (the metaclass), and so must every rewritten recurse / call_next site
+        plain_pos = rng.randrange(npos) if rng.random() < 0.5 else None
     defs = []
     # instances of every user class (two of some, so that identity matters)
     args = []
@@ -90,7 +97,7 @@ def gen_fn_scenario(rng: random.Random, static_only=True, simple_sigs=False, bod
         params = []
         for j in range(maxpos):
             name = j if uniform else (j + 3 * rng.randint(0, 1))
-            params.append({"name": name, "kind": "po" if j < npo else "pk", "req": j < reqpos, "ty": rng.choice(pool_types)})
+            params.append({"name": name, "kind": "po" if j < npo else "pk", "req": j < reqpos, "ty": rng.choice(plain_pool if (type_args and j == plain_pos) else pool_types)})
         # declaration order of the keyword-only parameters varies from method to method (and is not alphabetical)
         for n in (kwnames if rng.random() < 0.5 else kwnames[::-1]):
             if rng.random() < 0.6:
